@@ -315,13 +315,13 @@ func (m *Machine) floatOp(op token.Token, w int, x, y *T) Value {
 	case token.NEQ:
 		return Not(floatEq(w, x, y))
 	case token.LSS:
-		return fuf("flt"+sfx, 0, x, y)
+		return floatLess(w, x, y, false)
 	case token.GTR:
-		return fuf("flt"+sfx, 0, y, x)
+		return floatLess(w, y, x, false)
 	case token.LEQ:
-		return fuf("fle"+sfx, 0, x, y)
+		return floatLess(w, x, y, true)
 	case token.GEQ:
-		return fuf("fle"+sfx, 0, y, x)
+		return floatLess(w, y, x, true)
 	}
 	panic(unsupported{"float op " + op.String()})
 }
@@ -332,6 +332,24 @@ func floatIsNaN(w int, x *T) *T {
 		return And(Eq(Extract(30, 23, x), BV(8, 0xff)), Not(Eq(Extract(22, 0, x), BV(23, 0))))
 	}
 	return And(Eq(Extract(62, 52, x), BV(11, 0x7ff)), Not(Eq(Extract(51, 0, x), BV(52, 0))))
+}
+
+// floatLess is the IEEE-754 order, exact on the bit patterns: a pattern is mapped to an unsigned key that is monotone
+// in the value (negative: all bits inverted, non-negative: sign bit set); the two zeros compare equal; any comparison
+// with a NaN is false.
+func floatLess(w int, x, y *T, orEqual bool) *T {
+	sign := BV(w, uint64(1)<<uint(w-1))
+	key := func(t *T) *T {
+		neg := Eq(Bin("bvand", t, sign), sign)
+		return Ite(neg, Bin("bvxor", t, BV(w, mask(w))), Bin("bvor", t, sign))
+	}
+	absMask := BV(w, mask(w)>>1)
+	bothZero := And(Eq(Bin("bvand", x, absMask), BV(w, 0)), Eq(Bin("bvand", y, absMask), BV(w, 0)))
+	noNaN := And(Not(floatIsNaN(w, x)), Not(floatIsNaN(w, y)))
+	if orEqual {
+		return And(noNaN, Or(Cmp("bvule", key(x), key(y)), bothZero))
+	}
+	return And(noNaN, And(Cmp("bvult", key(x), key(y)), Not(bothZero)))
 }
 
 // floatEq: equal bit patterns are equal unless NaN; +0 == -0; NaN equals nothing; otherwise different.
